@@ -2,6 +2,9 @@ use crate::feature::sorted::FeatureSorted;
 use crate::parser::error::Error;
 use proc_macro2::Span;
 use proc_macro_error::{abort, emit_error};
+#[cfg(feature = "__verif")]
+use crate::verif::HashMap;
+#[cfg(not(feature = "__verif"))]
 use std::collections::HashMap;
 use syn::spanned::Spanned;
 use syn::{Data, Expr, ExprLit, ExprUnary, Fields, Ident, Lit, Meta, MetaNameValue, UnOp};
